@@ -25,12 +25,12 @@ def q(xs) -> str:
 
 PROFILES = {
     "quick": dict(
-        KeyPool=["s_a", "i1", "s_int"], Pool=["i1", "bT", "s_a", "s_int", "none", "f_frac"],
+        KeyPool=["s_a", "i1", "s_int"], Pool=["i1", "bT", "s_a", "s_int", "none", "f_frac", "ba_a"],
         ElemKinds=["int", "str", "bool", "float", "Decimal", "date", "Any", "timedelta"],
         IterTypeKinds=["list", "set", "Sequence", "tuple_var", "frozenset", "Iterable", "deque"],
         DataKinds=["list", "tuple", "set", "gen", "dict", "cmap", "citer"], Width=2, Deep=True, reps=2),
     "thorough": dict(
-        KeyPool=["s_a", "i1", "s_int", "bT", "s_date"], Pool=["i1", "bT", "s_a", "s_int", "none", "f_frac", "d1", "i_huge", "s_date"],
+        KeyPool=["s_a", "i1", "s_int", "bT", "s_date"], Pool=["i1", "bT", "s_a", "s_int", "none", "f_frac", "d1", "i_huge", "s_date", "ba_a"],
         ElemKinds=["int", "str", "bool", "float", "Decimal", "Fraction", "complex", "date", "datetime", "Any", "None", "timedelta",
                    "bytes", "UUID", "Path", "Pattern"],
         IterTypeKinds=sorted(gamma.ITER_HINT), DataKinds=["list", "tuple", "set", "frozenset", "deque", "gen", "citer", "dict", "cmap"],
@@ -184,7 +184,7 @@ def judge_case(T: dict, case: dict, loaders_by_k: dict, reps: int, bad: dict, ou
                     sig.update(extra_sig)
                 if cat == "C04":
                     # the failing call site is identified by (loader of which type, which foreign exception class)
-                    sig = {"what": what, "type": ctor_key(T), "exc": sig["exc"]}
+                    sig = {"what": what, "type": ctor_key(T), "exc": sig["exc"], **({"unhashable_result": True} if sig.get("unhashable_result") else {})}
                 out[cat].append({"sig": sig, "detail": detail, "dt": dtname, "size": size_of(T, d), "k": k, "strict": s,
                                  "T": T, "d": d, "model": model, "py_datum": node.py()})
 
@@ -197,8 +197,9 @@ def judge_case(T: dict, case: dict, loaders_by_k: dict, reps: int, bad: dict, ou
                     if off:
                         leaves = foreign_leaves(val)
                         excname = type(leaves[0]).__name__ if leaves else type(val).__name__
+                        leaf = leaves[0] if leaves else val
                         add("C04", "foreign_exception", f"{_err_desc(val)} (offending leaf class {off})", dt.name,
-                            {"exc": excname})
+                            {"exc": excname, **({"unhashable_result": True} if isinstance(leaf, TypeError) and str(leaf).startswith("unhashable type") else {})})
                 # ---- C02 ---------------------------------------------------------------
                 if model.get("unexp") and not model["undef"]:
                     if tag == "ok":
